@@ -2,6 +2,9 @@ package main
 
 import (
 	"fmt"
+	"os"
+	"path/filepath"
+	"time"
 	"go/constant"
 	"go/token"
 	"go/types"
@@ -178,6 +181,7 @@ func runC19(c *Ctx) {
 	c19Special(c)
 	c19Plumbing(c)
 	c19Resolver(c)
+	c19Manual(c)
 	c06HeaderCase(c)
 }
 
@@ -722,4 +726,170 @@ func c19Resolver(c *Ctx) {
 		ok, why = false, "the host is not validated as an IP address"
 	}
 	c.Check(ok, key, rule, "default :53; SplitHostPort, ParseUint(…,16), ParseIP checked", why, c.fnAt(fn))
+}
+
+// ---- manual agreement ------------------------------------------------------
+
+type flagReg struct {
+	name, kind, usage, def string
+	usageConst, defConst   bool
+	site                   string
+}
+
+func attackFlagRegs(c *Ctx) []flagReg {
+	var out []flagReg
+	for _, fname := range []string{"attackCmd", "systemSpecificFlags"} {
+		fn := c.P.Func("", fname)
+		if fn == nil {
+			continue
+		}
+		eachInstr(fn, func(i ssa.Instruction) {
+			call, ok := i.(*ssa.Call)
+			if !ok {
+				return
+			}
+			n := callName(&call.Call)
+			if !strings.HasPrefix(n, "(*flag.FlagSet).") {
+				return
+			}
+			kind := strings.TrimPrefix(n, "(*flag.FlagSet).")
+			args := call.Call.Args
+			if len(args) < 4 {
+				return
+			}
+			name, ok := constString(args[2])
+			if !ok {
+				return
+			}
+			r := flagReg{name: name, kind: kind, site: c.at(call)}
+			usageArg := args[len(args)-1]
+			r.usage, r.usageConst = constString(usageArg)
+			if kind != "Var" && len(args) == 5 {
+				switch kind {
+				case "StringVar":
+					if s, ok := constString(args[3]); ok {
+						r.def, r.defConst = s, true
+					}
+				case "BoolVar":
+					if b, ok := constBool(args[3]); ok {
+						r.def, r.defConst = fmt.Sprint(b), true
+					}
+				case "DurationVar":
+					if k, ok := constInt(args[3]); ok {
+						r.def, r.defConst = time.Duration(k).String(), true
+					}
+				case "Uint64Var":
+					if k, isK := args[3].(*ssa.Const); isK && k.Value != nil {
+						r.def, r.defConst = k.Value.ExactString(), true
+					}
+				default:
+					if k, ok := constInt(args[3]); ok {
+						r.def, r.defConst = fmt.Sprint(k), true
+					}
+				}
+			}
+			out = append(out, r)
+		})
+	}
+	return out
+}
+
+type manualFlag struct {
+	name, typ, usage, def string
+}
+
+func readmeAttackFlags(dir string) ([]manualFlag, bool) {
+	b, err := os.ReadFile(filepath.Join(dir, "README.md"))
+	if err != nil {
+		return nil, false
+	}
+	text := string(b)
+	i := strings.Index(text, "\nattack command:\n")
+	if i < 0 {
+		return nil, false
+	}
+	rest := text[i+len("\nattack command:\n"):]
+	var out []manualFlag
+	var cur *manualFlag
+	for _, line := range strings.Split(rest, "\n") {
+		switch {
+		case strings.HasPrefix(line, "  -"):
+			f := strings.Fields(strings.TrimSpace(line))
+			out = append(out, manualFlag{name: strings.TrimPrefix(f[0], "-")})
+			cur = &out[len(out)-1]
+			if len(f) > 1 {
+				cur.typ = f[1]
+			}
+		case strings.HasPrefix(line, "    \t") && cur != nil:
+			if cur.usage != "" {
+				cur.usage += "\n"
+			}
+			cur.usage += strings.TrimPrefix(line, "    \t")
+		default:
+			if strings.TrimSpace(line) == "" || !strings.HasPrefix(line, " ") {
+				goto done
+			}
+		}
+	}
+done:
+	for k := range out {
+		u := out[k].usage
+		if j := strings.LastIndex(u, " (default "); j >= 0 && strings.HasSuffix(u, ")") {
+			out[k].def = strings.Trim(u[j+len(" (default "):len(u)-1], "\"")
+			out[k].usage = u[:j]
+		}
+	}
+	return out, len(out) > 0
+}
+
+func c19Manual(c *Ctx) {
+	const rule = "the attack command's flag listing in README.md names exactly the registered flags, with the registered usage text and default value (platform-specific flags excepted)"
+	regs := attackFlagRegs(c)
+	man, ok := readmeAttackFlags(c.P.Dir)
+	if !ok || len(regs) == 0 {
+		c.Undecided("manual:README.md:attack-flags", rule, "no 'attack command:' flag listing found in README.md or no registrations found (unresolved anchor)")
+		return
+	}
+	byName := map[string]flagReg{}
+	for _, r := range regs {
+		byName[r.name] = r
+	}
+	manBy := map[string]manualFlag{}
+	for _, m := range man {
+		manBy[m.name] = m
+	}
+	var problems []string
+	var sites []string
+	for _, r := range regs {
+		m, ok := manBy[r.name]
+		if !ok {
+			problems = append(problems, "-"+r.name+" is registered but not in the manual")
+			sites = append(sites, r.site)
+			continue
+		}
+		if r.usageConst && m.usage != r.usage {
+			problems = append(problems, fmt.Sprintf("-%s: manual says %q, flag says %q", r.name, m.usage, r.usage))
+			sites = append(sites, r.site)
+		}
+		if r.defConst {
+			zero := r.def == "" || r.def == "0" || r.def == "false" || r.def == "0s"
+			if zero && m.def != "" || !zero && m.def != r.def {
+				problems = append(problems, fmt.Sprintf("-%s: manual default %q, registered default %q", r.name, m.def, r.def))
+				sites = append(sites, r.site)
+			}
+		}
+	}
+	for _, m := range man {
+		if _, ok := byName[m.name]; !ok {
+			if m.name == "resolvers" && strings.HasPrefix(c.P.Config, "windows") {
+				continue
+			}
+			problems = append(problems, "-"+m.name+" is in the manual but not registered")
+		}
+	}
+	sort.Strings(problems)
+	if len(sites) == 0 {
+		sites = []string{"README.md"}
+	}
+	c.Check(len(problems) == 0, "manual:README.md:attack-flags", rule, fmt.Sprintf("%d flags agree in name, usage and default", len(regs)), strings.Join(problems, "; "), sites...)
 }
